@@ -7,7 +7,7 @@
 package keeper
 
 //@ ghost ent_store (Array enterprise.Key (Slice Int))
-//@ kvstore ent_store ent_key
+//@ kvstore ent_store ent_key ent_prefix ent_inprefix ent_keylt enterprise.Key
 
 // ---------------------------------------------------------------- parameters
 
@@ -211,3 +211,216 @@ package keeper
 //@ func Keeper.Logger(ctx) (l)
 //@   trusted the logger handle is not modelled; the method only derives a logger from the context
 //@   pure
+
+// ================================================================ purchase orders (L1)
+
+//@ func Keeper.GetHighestPurchaseOrderID(ctx) (purchaseOrderID, err)
+//@   props C03 C14
+//@   pure
+//@   requires entHighestSet(ent_store) ==> len(ent_store[kEHighest]) == 8
+//@   nopanic
+//@   ensures (err == nil) == entHighestSet(ent_store)
+//@   ensures err == nil ==> entHighestIs(ent_store, purchaseOrderID)
+
+//@ func Keeper.SetHighestPurchaseOrderID(ctx, purchaseOrderID)
+//@   props C03 C14
+//@   modifies ent_store
+//@   nopanic
+//@   ensures entHighestIs(ent_store, purchaseOrderID)
+//@   ensures ent_store == old(ent_store)[kEHighest := ent_store[kEHighest]]
+
+//@ func Keeper.AddPoToRaisedQueue(ctx, purchaseOrderId)
+//@   props C03 C14
+//@   modifies ent_store
+//@   nopanic
+//@   ensures qval(ent_store[kRaised(purchaseOrderId)], purchaseOrderId)
+//@   ensures ent_store == old(ent_store)[kRaised(purchaseOrderId) := ent_store[kRaised(purchaseOrderId)]]
+
+//@ func Keeper.PurchaseOrderIsInRaisedQueue(ctx, purchaseOrderId) (ok)
+//@   props C03 C14
+//@   pure
+//@   nopanic
+//@   ensures ok == raisedHas(ent_store, purchaseOrderId)
+
+//@ func Keeper.RemovePurchaseOrderFromRaisedQueue(ctx, purchaseOrderId)
+//@   props C03 C14
+//@   modifies ent_store
+//@   nopanic
+//@   ensures !raisedHas(ent_store, purchaseOrderId)
+//@   ensures ent_store == old(ent_store)[kRaised(purchaseOrderId) := ent_store[kRaised(purchaseOrderId)]]
+
+//@ func Keeper.AddPoToAcceptedQueue(ctx, purchaseOrderId)
+//@   props C03 C14
+//@   modifies ent_store
+//@   nopanic
+//@   ensures qval(ent_store[kAccepted(purchaseOrderId)], purchaseOrderId)
+//@   ensures ent_store == old(ent_store)[kAccepted(purchaseOrderId) := ent_store[kAccepted(purchaseOrderId)]]
+
+//@ func Keeper.PurchaseOrderIsInAcceptedQueue(ctx, purchaseOrderId) (ok)
+//@   props C03 C14
+//@   pure
+//@   nopanic
+//@   ensures ok == acceptedHas(ent_store, purchaseOrderId)
+
+//@ func Keeper.RemovePurchaseOrderFromAcceptedQueue(ctx, purchaseOrderId)
+//@   props C03 C14 C02
+//@   modifies ent_store
+//@   nopanic
+//@   ensures !acceptedHas(ent_store, purchaseOrderId)
+//@   ensures ent_store == old(ent_store)[kAccepted(purchaseOrderId) := ent_store[kAccepted(purchaseOrderId)]]
+
+// The queue listings: the iteration helper is executed at the call site and its loop is cut by the invariant given
+// here; the iterator follows the assumed store-iterator semantics (ascending visit of exactly the present keys).
+// Result: the ids in the queue, each once, in ascending order - nothing missing, nothing extra.
+//@ func Keeper.IterateRaisedQueue(ctx, cb)
+//@   inline
+//@ func Keeper.IterateAcceptedQueue(ctx, cb)
+//@   inline
+
+//@ func Keeper.GetAllRaisedPurchaseOrders(ctx) (purchaseOrderIds)
+//@   props C03 C14
+//@   pure
+//@   requires ENT_QREP(ent_store)
+//@   nopanic
+//@   ensures @ascending forall i int, j int :: {purchaseOrderIds[i], purchaseOrderIds[j]} 0 <= i && i < j && j < len(purchaseOrderIds) ==> purchaseOrderIds[i] < purchaseOrderIds[j]
+//@   ensures @only_queued forall j int :: {purchaseOrderIds[j]} 0 <= j && j < len(purchaseOrderIds) ==> raisedHas(ent_store, purchaseOrderIds[j])
+//@   ensures @all_queued forall x uint64 :: {ent_store[kRaised(x)]} raisedHas(ent_store, x) ==> exists j int :: 0 <= j && j < len(purchaseOrderIds) && purchaseOrderIds[j] == x
+//@   loop IterateRaisedQueue.0: invariant it_store == ent_store && ent_store == old(ent_store) && len(purchaseOrderIds) >= 0
+//@   loop IterateRaisedQueue.0: invariant it_valid ==> raisedHas(ent_store, raisedKeyId(it_key)) && it_key == kRaised(raisedKeyId(it_key))
+//@   loop IterateRaisedQueue.0: invariant forall i int, j int :: {purchaseOrderIds[i], purchaseOrderIds[j]} 0 <= i && i < j && j < len(purchaseOrderIds) ==> purchaseOrderIds[i] < purchaseOrderIds[j]
+//@   loop IterateRaisedQueue.0: invariant forall j int :: {purchaseOrderIds[j]} 0 <= j && j < len(purchaseOrderIds) ==> raisedHas(ent_store, purchaseOrderIds[j]) && (it_valid ==> purchaseOrderIds[j] < raisedKeyId(it_key))
+//@   loop IterateRaisedQueue.0: invariant forall x uint64 :: {ent_store[kRaised(x)]} raisedHas(ent_store, x) && (!it_valid || x < raisedKeyId(it_key)) ==> exists j int :: 0 <= j && j < len(purchaseOrderIds) && purchaseOrderIds[j] == x
+
+//@ func Keeper.GetAllAcceptedPurchaseOrders(ctx) (purchaseOrderIds)
+//@   props C03 C14 C02
+//@   pure
+//@   requires ENT_QREP(ent_store)
+//@   nopanic
+//@   ensures @ascending forall i int, j int :: {purchaseOrderIds[i], purchaseOrderIds[j]} 0 <= i && i < j && j < len(purchaseOrderIds) ==> purchaseOrderIds[i] < purchaseOrderIds[j]
+//@   ensures @only_queued forall j int :: {purchaseOrderIds[j]} 0 <= j && j < len(purchaseOrderIds) ==> acceptedHas(ent_store, purchaseOrderIds[j])
+//@   ensures @all_queued forall x uint64 :: {ent_store[kAccepted(x)]} acceptedHas(ent_store, x) ==> exists j int :: 0 <= j && j < len(purchaseOrderIds) && purchaseOrderIds[j] == x
+//@   loop IterateAcceptedQueue.0: invariant it_store == ent_store && ent_store == old(ent_store) && len(purchaseOrderIds) >= 0
+//@   loop IterateAcceptedQueue.0: invariant it_valid ==> acceptedHas(ent_store, acceptedKeyId(it_key)) && it_key == kAccepted(acceptedKeyId(it_key))
+//@   loop IterateAcceptedQueue.0: invariant forall i int, j int :: {purchaseOrderIds[i], purchaseOrderIds[j]} 0 <= i && i < j && j < len(purchaseOrderIds) ==> purchaseOrderIds[i] < purchaseOrderIds[j]
+//@   loop IterateAcceptedQueue.0: invariant forall j int :: {purchaseOrderIds[j]} 0 <= j && j < len(purchaseOrderIds) ==> acceptedHas(ent_store, purchaseOrderIds[j]) && (it_valid ==> purchaseOrderIds[j] < acceptedKeyId(it_key))
+//@   loop IterateAcceptedQueue.0: invariant forall x uint64 :: {ent_store[kAccepted(x)]} acceptedHas(ent_store, x) && (!it_valid || x < acceptedKeyId(it_key)) ==> exists j int :: 0 <= j && j < len(purchaseOrderIds) && purchaseOrderIds[j] == x
+
+//@ func Keeper.PurchaseOrderExists(ctx, purchaseOrderID) (ok)
+//@   props C03 C14
+//@   pure
+//@   nopanic
+//@   ensures ok == poHas(ent_store, purchaseOrderID)
+
+//@ func Keeper.GetPurchaseOrder(ctx, purchaseOrderID) (po, found)
+//@   props C03 C14 C02
+//@   pure
+//@   nopanic
+//@   ensures found == poHas(ent_store, purchaseOrderID)
+//@   ensures found ==> po == poGet(ent_store, purchaseOrderID)
+//@   ensures !found ==> po.Status == 0 && po.Id == 0 && len(po.Decisions) == 0
+
+//@ func Keeper.SetPurchaseOrder(ctx, purchaseOrder) (err)
+//@   props C03 C14 C02
+//@   modifies ent_store
+//@   nopanic
+//@   ensures (err == nil) == (1 <= purchaseOrder.Status && purchaseOrder.Status <= 4)
+//@   ensures err == nil ==> ent_store == poPut(old(ent_store), purchaseOrder)
+//@   ensures err != nil ==> ent_store == old(ent_store)
+
+// ================================================================ whitelist and authorised signers
+
+//@ func Keeper.AddressIsWhitelisted(ctx, address) (ok)
+//@   props C03 C13
+//@   pure
+//@   requires len(address) <= 255
+//@   nopanic
+//@   ensures ok == (len(address) >= 1 && wlHas(ent_store, bytesval(address)))
+
+//@ func Keeper.AddAddressToWhitelist(ctx, address) (err)
+//@   props C03 C13
+//@   requires len(address) <= 255
+//@   modifies ent_store
+//@   ensures (err == nil) == (len(address) >= 1)
+//@   ensures err == nil ==> wlHas(ent_store, bytesval(address)) && ent_store == old(ent_store)[kWhitelist(bytesval(address)) := ent_store[kWhitelist(bytesval(address))]]
+//@   ensures err != nil ==> ent_store == old(ent_store)
+
+//@ func Keeper.RemoveAddressFromWhitelist(ctx, address) (err)
+//@   props C03 C13
+//@   requires len(address) <= 255
+//@   modifies ent_store
+//@   ensures (err == nil) == (len(address) >= 1)
+//@   ensures err == nil ==> !wlHas(ent_store, bytesval(address)) && ent_store == old(ent_store)[kWhitelist(bytesval(address)) := ent_store[kWhitelist(bytesval(address))]]
+//@   ensures err != nil ==> ent_store == old(ent_store)
+
+//@ func Keeper.ProcessWhitelistAction(ctx, address, action, signer) (err)
+//@   props C03 C13
+//@   requires 1 <= len(address) && len(address) <= 255
+//@   let a := bytesval(address)
+//@   modifies ent_store
+//@   ensures @add err == nil && action == 1 ==> !wlHas(old(ent_store), a) && wlHas(ent_store, a)
+//@   ensures @remove err == nil && action == 2 ==> wlHas(old(ent_store), a) && !wlHas(ent_store, a)
+//@   ensures @only_that_entry err == nil ==> ent_store == old(ent_store)[kWhitelist(a) := ent_store[kWhitelist(a)]]
+//@   ensures @rejected_changes_nothing err != nil ==> ent_store == old(ent_store)
+
+//@ func Keeper.GetParamEntSigners(ctx) (r)
+//@   props C03 C13 C16
+//@   pure
+//@   ensures entParamsSet(ent_store) ==> r == entParams(ent_store).EntSigners
+
+//@ func Keeper.GetParamEntSignersAsAddressArray(ctx) (r)
+//@   props C03 C13 C16
+//@   pure
+//@   requires entParamsSet(ent_store)
+//@   let xs := splitOn(entParams(ent_store).EntSigners, ",")
+//@   ensures @only_signers forall j int :: {r[j]} 0 <= j && j < len(r) ==> isEntSignerIn(xs, bytesval(r[j])) && 1 <= len(r[j]) && len(r[j]) <= 255
+//@   ensures @all_signers forall i int :: {xs[i]} 0 <= i && i < len(xs) && validBech32(xs[i]) ==> exists j int :: 0 <= j && j < len(r) && bytesval(r[j]) == bytesval(addrOf(xs[i]))
+//@   loop 0: invariant 0 - 1 <= rangeindex && rangeindex < len(entSigners) && entSigners == xs && len(entSignersArray) >= 0
+//@   loop 0: invariant forall j int :: {entSignersArray[j]} 0 <= j && j < len(entSignersArray) ==> isEntSignerIn(xs, bytesval(entSignersArray[j])) && 1 <= len(entSignersArray[j]) && len(entSignersArray[j]) <= 255
+//@   loop 0: invariant forall i int :: {xs[i]} 0 <= i && i <= rangeindex && validBech32(xs[i]) ==> exists j int :: 0 <= j && j < len(entSignersArray) && bytesval(entSignersArray[j]) == bytesval(addrOf(xs[i]))
+
+// A decision or whitelist change is authorised iff the signer's address is one of the well-formed entries of the current parameter.
+//@ func Keeper.IsAuthorisedToDecide(ctx, signer) (ok)
+//@   props C03 C13 C16
+//@   pure
+//@   requires entParamsSet(ent_store) && 1 <= len(signer) && len(signer) <= 255
+//@   ensures ok == isEntSignerIn(splitOn(entParams(ent_store).EntSigners, ","), bytesval(signer))
+//@   loop 0: invariant 0 - 1 <= rangeindex && rangeindex < len(entSigners)
+//@   loop 0: invariant isAuthorised == (exists j int :: 0 <= j && j <= rangeindex && bytesval(entSigners[j]) == bytesval(signer))
+
+// ================================================================ purchase-order life cycle (L2)
+
+// Raising: the order is stored under the stored highest id (unused, by ENT_FRESH) as Raised with the block time,
+// queued, and the highest id moves on by one.  Nothing else changes; a failure changes nothing.
+//@ func Keeper.RaiseNewPurchaseOrder(ctx, purchaseOrder) (id, err)
+//@   props C03 C14
+//@   requires entHighestSet(ent_store) ==> len(ent_store[kEHighest]) == 8
+//@   requires 0 <= unixSecs(blockTime(ctx)) && unixSecs(blockTime(ctx)) < 2^63
+//@   let s0 := old(ent_store)
+//@   let p1 := poGet(ent_store, id)
+//@   modifies ent_store
+//@   nopanic
+//@   ensures @needs_highest (err == nil) == entHighestSet(s0)
+//@   ensures @fail_nochange err != nil ==> ent_store == s0
+//@   ensures @id err == nil ==> entHighestIs(s0, id) && entHighestIs(ent_store, wrapu64(id + 1))
+//@   ensures @stored err == nil ==> poHas(ent_store, id) && p1.Id == id && p1.Status == 1 && p1.RaiseTime == unixSecs(blockTime(ctx)) && p1.Purchaser == purchaseOrder.Purchaser && p1.Amount == purchaseOrder.Amount && p1.CompletionTime == purchaseOrder.CompletionTime && p1.Decisions == purchaseOrder.Decisions
+//@   ensures @queued err == nil ==> qval(ent_store[kRaised(id)], id)
+//@   ensures @frame err == nil ==> ent_store == s0[kPO(id) := ent_store[kPO(id)]][kRaised(id) := ent_store[kRaised(id)]][kEHighest := ent_store[kEHighest]]
+
+// Recording a decision: exactly one decision (signer, decision, block time) is appended; status, amount, purchaser and
+// the earlier decisions are untouched.
+//@ func Keeper.ProcessPurchaseOrderDecision(ctx, purchaseOrderID, decision, signer) (err)
+//@   props C03 C14
+//@   requires poHas(ent_store, purchaseOrderID) && poGet(ent_store, purchaseOrderID).Id == purchaseOrderID
+//@   requires 1 <= poStatus(ent_store, purchaseOrderID) && poStatus(ent_store, purchaseOrderID) <= 4
+//@   requires 0 <= unixSecs(blockTime(ctx)) && unixSecs(blockTime(ctx)) < 2^63
+//@   requires 1 <= len(signer) && len(signer) <= 255 && len(poGet(ent_store, purchaseOrderID).Decisions) < 2^62
+//@   let s0 := old(ent_store)
+//@   let p0 := poGet(old(ent_store), purchaseOrderID)
+//@   let p1 := poGet(ent_store, purchaseOrderID)
+//@   let n := len(poGet(old(ent_store), purchaseOrderID).Decisions)
+//@   modifies ent_store
+//@   ensures @ok err == nil
+//@   ensures @frame ent_store == s0[kPO(purchaseOrderID) := ent_store[kPO(purchaseOrderID)]] && poHas(ent_store, purchaseOrderID)
+//@   ensures @order_otherwise_unchanged p1.Id == p0.Id && p1.Status == p0.Status && p1.Purchaser == p0.Purchaser && p1.Amount == p0.Amount && p1.RaiseTime == p0.RaiseTime && p1.CompletionTime == p0.CompletionTime
+//@   ensures @one_decision_appended len(p1.Decisions) == n + 1 && p1.Decisions[n].Decision == decision && p1.Decisions[n].DecisionTime == unixSecs(blockTime(ctx)) && validBech32(p1.Decisions[n].Signer) && bytesval(addrOf(p1.Decisions[n].Signer)) == bytesval(signer)
+//@   ensures @earlier_decisions_kept forall j int :: {p1.Decisions[j]} 0 <= j && j < n ==> p1.Decisions[j] == p0.Decisions[j]
